@@ -66,6 +66,7 @@ type FnExec struct {
 	tuples   map[ssa.Value][]Term
 	ptrs     map[ssa.Value]*Ptr
 	closures map[ssa.Value]*ssa.MakeClosure
+	lastSelect *ssa.Select     // the select statement executed last (for the spec builtin received(x))
 	extSeen  map[string]bool // pairs of byte strings for which the extensionality instance was stated
 	qbind    []string // binders of the spec quantifiers being evaluated (innermost last) and their type guards
 	qguard   []Term
@@ -946,6 +947,7 @@ func (fx *FnExec) execInstr(st *State, in ssa.Instruction) {
 			}
 		}
 		fx.tuples[in] = tup
+		fx.lastSelect = in
 	case *ssa.Go:
 		// `go f(x)`: interleavings are not modelled. A spawned call is accepted only when the callee can write nothing
 		// the contracts speak about (a trusted `pure` contract, or an empty inferred write set): then when it runs is
